@@ -41,16 +41,19 @@ def task_constructors(names, tier, seed):
     arglist = sorted(syms, key=lambda s: s.name)  # what the library passes to the factories
     order = sorted(names)
     key_base = "ctor/" + ",".join(names)
-    subsets = [(), tuple(names)] + [tuple(c) for r in (1, 2) for c in itertools.combinations(names, r)][:12]
+    subsets = [(), tuple(names)] + [tuple(c) for r in (1, 2) for c in itertools.combinations(names, r)][:12] + [()]
     n_ok = 0
+    # one class per kind, every subset constructed on it in turn: a value given in one construction must not leak into
+    # a later construction of the same class (history dimension of the factories)
+    with installed(), quiet():
+        classes = {"vector": common.named_vector("V", arglist), "covariance": common.named_covariance("C", arglist)}
     for sub in subsets:
         vals = {n: z3.Real(f"val_{n}") for n in sub}
         for kind in ("vector", "covariance"):
 
             def harness():
                 with installed(), quiet():
-                    cls = common.named_vector("V", arglist) if kind == "vector" else common.named_covariance("C", arglist)
-                    return cls(**{n: SymReal(v) for n, v in vals.items()})
+                    return classes[kind](**{n: SymReal(v) for n, v in vals.items()})
 
             ls = explore(harness)
             if len(ls) != 1 or ls[0].status != "ok":
@@ -141,6 +144,7 @@ def _ctor_concrete_bad(names, decl, kind, fv):
 
     arglist = sorted([sympy.Symbol(n) for n in decl], key=lambda s: s.name)
     cls = common.named_vector("V", arglist) if kind == "vector" else common.named_covariance("C", arglist)
+    cls(**{n: 7.0 + i for i, n in enumerate(names)})  # an earlier construction on the same class naming every entry
     obj = cls(**fv)
     order = sorted(names)
     for i, nm in enumerate(order):
